@@ -447,7 +447,7 @@ func c19Cases(tier string) int {
 func init() {
 	register(&Prop{
 		ID: "C19", Level: "exploration",
-		Rule:     "sampled: a target subject (scalar of every kind, arrays to length 4 nested to depth 3) and a case list of 1-5 cases x 1-4 alternatives built so that a chosen (case, alternative) is the FIRST that matches: earlier alternatives are non-matching by construction (other literal, array pattern of wrong length, right length with one differing element, array pattern on a scalar), the chosen one is derived from the subject (literals incl. equal-by-coercion, identifiers, _ , nested array patterns), later ones carry tripwires (bodies that print, the bad-escape literal '\\q' that errs only if evaluated); expression and block bodies use the bindings; match nested in match and in functions; applied to 1-5 subjects per run. 46 enumerated forms (incl. 15 with an unset subject or element: only a name matches it) (failing alternative kind x following kind, first of two matching, none matching, length +-1, coercion). Non-trivial = >= 2 cases or alternatives and the selected alternative is not the first; distinct by program+input.",
+		Rule:     "sampled: a target subject (scalar of every kind, arrays to length 4 nested to depth 3) and a case list of 1-5 cases x 1-4 alternatives built so that a chosen (case, alternative) is the FIRST that matches: earlier alternatives are non-matching by construction (other literal, array pattern of wrong length, right length with one differing element, array pattern on a scalar), the chosen one is derived from the subject (literals incl. equal-by-coercion, identifiers, _ , nested array patterns), later ones carry tripwires (bodies that print, the bad-escape literal '\\q' that errs only if evaluated); expression and block bodies use the bindings; match nested in match and in functions; applied to 1-5 subjects per run. 46 enumerated forms (incl. 15 with an unset subject or element: only a name matches it) (failing alternative kind x following kind, first of two matching, none matching, length +-1, coercion). Non-trivial = >= 2 cases or alternatives and the selected alternative is not the first; distinct by program+input. One in eight sampled case lists has 8-15 cases; 10 enumerated forms with 8-16 literal cases; 6 forms with names bound by an alternative that then fails.",
 		NumCases: c19Cases,
 		Run: func(c *Case) {
 			if c.Idx == 0 {
